@@ -1250,7 +1250,7 @@ def run(ctx):
     shapes = [(1, 1), (1, 3), (3, 1), (2, 2), (2, 3), (3, 2), (4, 3), (3, 5), (5, 5), (1, 5), (5, 1), (4, 4)]
     class_sets = [("count",), ("smallcount",), ("count", "dyadic", "neg"), ("dyadic",), ("neg",),
                   ("big", "tiny"), ("bits",), ("count", "big", "bits")]
-    n_groups = 60 if quick else max(60, 2400 // nw)
+    n_groups = 60 if quick else max(60, 1600 // nw)
     kept = []
     for g in range(n_groups):
         if g < len(shapes):
@@ -1301,7 +1301,7 @@ def run(ctx):
         return sum(1 for k in kinds if k.startswith("omd")) <= 1 and sum(1 for k in kinds if k.startswith("smd")) <= 1
     pairs = [p for p in pairs if compatible(p)]
     triples = [p for p in triples if compatible(p)]
-    budget = 3000 if quick else max(3000, 120000 // nw)
+    budget = 3000 if quick else max(3000, 80000 // nw)
     done = 0
     it = 0
     while done < budget:
@@ -1325,7 +1325,7 @@ def run(ctx):
     for lines in fixed_adj:
         for mode in ("list", "list_nl", "tuple", "str", "str_nl", "file"):
             run_adjacency(ctx, {"op": "adjacency", "lines": lines, "mode": mode}, ("adjacency", "fixed"))
-    for i in range(700 if quick else max(700, 48000 // nw)):
+    for i in range(700 if quick else max(700, 32000 // nw)):
         lines = gen_adjacency(rng, odd=(i % 3 == 0), wide=(i % 233 == 7))
         mode = rng.choice(["list", "list_nl", "tuple", "str", "str_nl", "file"])
         tags = ["adjacency"]
@@ -1341,7 +1341,7 @@ def run(ctx):
                          (["S\t0\t1\t*\t*\t*\t*\t*\tf1_1\t*"], ["ACGT"]),
                          (["L\t0\t1\t*\t*\t*\t*\t*\tlib9\t*"], [">otu lib9"])):
         run_uc(ctx, {"op": "uc", "lines": lines, "fasta": fasta, "api": "_from_uc"}, ("uc", "fixed"))
-    for i in range(700 if quick else max(700, 48000 // nw)):
+    for i in range(700 if quick else max(700, 32000 // nw)):
         lines, seeds = gen_uc(rng, wide=(i % 233 == 11))
         tags = ["uc"]
         fasta = None
